@@ -559,6 +559,12 @@ class Inliner:
                 e = bound[p]
             elif p in defaults:
                 e = defaults[p]
+                # a default is evaluated once, when the `def` statement runs -- not at the call: only a literal
+                # (or, for helpers defined at module/class level, a plain name/attribute chain read at import
+                # time) may be moved to the call site.  `def h(r, _id=current): ...` captures `current` early.
+                lit = isinstance(e, ast.Constant) or (isinstance(e, ast.UnaryOp) and isinstance(e.operand, ast.Constant)) or (isinstance(e, (ast.Tuple, ast.List, ast.Dict, ast.Set)) and not any(True for _ in ast.iter_child_nodes(e) if isinstance(_, ast.expr)))
+                if not lit and not (h.nested_in is None and _is_simple(e)):
+                    raise NotInlinable("default argument %s=%s is evaluated at definition time" % (p, ast.unparse(e)[:40]))
             else:
                 raise NotInlinable("parameter %s unbound" % p)
             direct = _is_simple(e) or (uses.get(p, 0) <= 1 and not _has_effect(e))
@@ -1370,6 +1376,91 @@ def _drop_self_assignments(fn):
                     lst[:] = keep
 
 
+def _canon_statements(fn):
+    """Three more spellings of the same program:
+    * chained assignment with one attribute target: `n = self.x = V`  ->  `self.x = V; n = self.x`
+      (V is evaluated once and bound to both; reading the plain attribute back yields the same object);
+    * parallel assignment with attribute targets: `a, self.x = (self.x, None)` -> `a = self.x; self.x = None`
+      when no value reads a target assigned earlier in the sequence (the right side is evaluated first);
+    * assignment expression in a loop header: `while (h := f()) is not None: B`
+      ->  `while True: h = f(); if not (h is not None): break; B`   (no else clause)."""
+    for parent in ast.walk(fn):
+        for field in ("body", "orelse", "finalbody"):
+            lst = getattr(parent, field, None)
+            if not (isinstance(lst, list) and lst and isinstance(lst[0], ast.stmt)):
+                continue
+            out = []
+            changed = False
+            for st in lst:
+                if isinstance(st, ast.Assign) and len(st.targets) >= 2:
+                    attrs = [t for t in st.targets if isinstance(t, ast.Attribute) and _is_simple(t)]
+                    names = [t for t in st.targets if isinstance(t, ast.Name)]
+                    if len(attrs) == 1 and len(attrs) + len(names) == len(st.targets):
+                        a = attrs[0]
+                        if isinstance(st.value, ast.Constant) or (isinstance(st.value, ast.Name) and st.value.id not in {n.id for n in names}):
+                            # an immutable constant / a name: every target simply gets it (targets bound left to right)
+                            for t in st.targets:
+                                out.append(ast.copy_location(ast.Assign(targets=[t], value=copy.deepcopy(st.value)), st))
+                        else:
+                            out.append(ast.copy_location(ast.Assign(targets=[a], value=st.value), st))
+                            for n in names:
+                                load = copy.deepcopy(a)
+                                load.ctx = ast.Load()
+                                out.append(ast.copy_location(ast.Assign(targets=[n], value=load), st))
+                        changed = True
+                        continue
+                if (isinstance(st, ast.Assign) and len(st.targets) == 1 and isinstance(st.targets[0], (ast.Tuple, ast.List))
+                        and isinstance(st.value, (ast.Tuple, ast.List)) and len(st.targets[0].elts) == len(st.value.elts)
+                        and all(isinstance(t, ast.Name) or (isinstance(t, ast.Attribute) and _is_simple(t)) for t in st.targets[0].elts)
+                        and any(isinstance(t, ast.Attribute) for t in st.targets[0].elts)
+                        and not any(isinstance(v, ast.Starred) for v in st.value.elts)
+                        and all(_is_pure(v) for v in st.value.elts)):
+                    tg = [ast.unparse(t) for t in st.targets[0].elts]
+                    ok = len(set(tg)) == len(tg)
+                    for i, v in enumerate(st.value.elts):
+                        reads = _chains(v)
+                        for j in range(i):
+                            if any(r == tg[j] or r.startswith(tg[j] + ".") or tg[j].startswith(r + ".") for r in reads):
+                                ok = False
+                    if ok:
+                        for t, v in zip(st.targets[0].elts, st.value.elts):
+                            out.append(ast.copy_location(ast.Assign(targets=[t], value=v), st))
+                        changed = True
+                        continue
+                if isinstance(st, ast.While) and not st.orelse:
+                    walrus = [n for n in ast.walk(st.test) if isinstance(n, ast.NamedExpr)]
+                    if len(walrus) == 1 and isinstance(walrus[0].target, ast.Name):
+                        w = walrus[0]
+                        # the assignment expression must be evaluated unconditionally and first: it is the test
+                        # itself, the left operand of the comparison, or the operand of `not`
+                        t = st.test
+                        while isinstance(t, ast.UnaryOp) and isinstance(t.op, ast.Not):
+                            t = t.operand
+                        first = t.left if isinstance(t, ast.Compare) else t
+                        if first is w:
+                            name = ast.Name(id=w.target.id, ctx=ast.Load())
+
+                            class R(ast.NodeTransformer):
+                                def visit_NamedExpr(s, n):
+                                    return ast.copy_location(name, n) if n is w else n
+
+                            newtest = R().visit(copy.deepcopy(st.test)) if False else None
+                            # rebuild the test with the name in place of the walrus (on the original nodes)
+                            asg = ast.copy_location(ast.Assign(targets=[ast.Name(id=w.target.id, ctx=ast.Store())], value=w.value), st)
+                            test2 = R().visit(st.test)
+                            brk = ast.copy_location(ast.If(test=ast.UnaryOp(op=ast.Not(), operand=test2), body=[ast.copy_location(ast.Break(), st)], orelse=[]), st)
+                            loop = ast.copy_location(ast.While(test=ast.Constant(value=True), body=[asg, brk] + list(st.body), orelse=[]), st)
+                            ast.fix_missing_locations(loop)
+                            out.append(loop)
+                            changed = True
+                            continue
+                out.append(st)
+            if changed:
+                for x in out:
+                    ast.fix_missing_locations(x)
+                lst[:] = out
+
+
 def _split_parallel(fn):
     """`a, b = x, y` -> `a = x; b = y` when all targets are names, the right side is a display of the same
     length and no value reads a target of the same statement (then the order of the bindings is immaterial)."""
@@ -1464,6 +1555,7 @@ def copyprop_module(m):
     for node in ast.walk(m.tree):
         if isinstance(node, (ast.FunctionDef, ast.AsyncFunctionDef)):
             _drop_self_assignments(node)
+            _canon_statements(node)
             _split_parallel(node)
             n += _CopyProp(node).run()
     return n
